@@ -78,7 +78,6 @@ CLAIM = {
 
 NA = {
  'C02': "equality of two implementations' answers over all inputs is a relation between runtime values; the only shape-level sibling check found flags by-design stubs",
- 'C06': "quantifies over values yielded under arbitrary Next/Advance sequences; no clause is visible in the shape of the code",
  'C08': "block layout, padding and varint widths are value dependent; no structural necessary condition found",
  'C22': "soundness of a rewrite over all programs is not a shape property; a guard-presence check would be a frozen fragment",
  'C24': "functional semantics of each collection function over all inputs; not a shape property",
@@ -89,6 +88,16 @@ NA = {
  'C34': "equivalence of two algorithms over all lines and tolerances needs execution or a solver, which is a different family",
  'C36': "equality of worlds across schedules is a relation between runtime values (the race-freedom part is decided under C35)",
 }
+
+# Keep the claim texts in step with DESIGN.md section 5: "*Decides*: ..." and "*Not decided*: ..."
+import re
+_design = open(os.path.join(V, 'DESIGN.md')).read()
+for _m in re.finditer(r'^### (C\d+) [^\n]*\n(.*?)(?=^### |^-{10,})', _design, re.S | re.M):
+    _pid, _body = _m.group(1), ' '.join(_m.group(2).split())
+    _d = re.search(r'\*Decides\*: (.*?)(?= \*Today\*| \*Not decided\*|$)', _body)
+    _n = re.search(r'\*Not decided\*: (.*)$', _body)
+    if _d:
+        CLAIM[_pid] = (_d.group(1).strip(), ('Not decided: ' + _n.group(1).strip()) if _n else CLAIM.get(_pid, ('', ''))[1])
 
 props = [json.loads(l) for l in open(os.path.join(V, 'properties.jsonl'))]
 checks, na = [], []
